@@ -21,13 +21,49 @@ func init() {
 
 // getterResult runs getter g on m; returns the serialised result (status first) and an error string
 // (full text, used only to compare the implementation with itself on twins).
+// dirtyN varies what the destination of a getter holds before the call: nothing, a longer previous
+// value, a shorter one, an empty value with spare capacity.  The result must not depend on it.
+var dirtyN int
+
+func dirtyBytes() []byte {
+	dirtyN++
+	switch dirtyN % 5 {
+	case 0:
+		return nil
+	case 1:
+		return []byte("previous-value-that-is-rather-long-0123456789")
+	case 2:
+		return []byte{0xEE, 0xEE, 0xEE}
+	case 3:
+		return make([]byte, 0, 64)
+	default:
+		return append(make([]byte, 0, 32), 0xAA, 0xBB, 0xCC, 0xDD)
+	}
+}
+
+func dirtyIP() net.IP {
+	dirtyN++
+	switch dirtyN % 5 {
+	case 0:
+		return nil
+	case 1:
+		return net.IP{9, 9, 9, 9}
+	case 2:
+		return net.ParseIP("2001:db8:ffff:ffff:ffff:ffff:ffff:ffff")
+	case 3:
+		return append(make(net.IP, 0, 16), 7, 7, 7, 7)
+	default:
+		return make(net.IP, 3, 32)
+	}
+}
+
 func getterResult(g, t int, key []byte, m *stun.Message) (obs []int, errText string) {
 	var err error
 	var val []int
 	pan, what := guarded(func() {
 		switch g {
 		case 1:
-			var a stun.XORMappedAddress
+			a := stun.XORMappedAddress{IP: dirtyIP(), Port: 4711}
 			if stun.AttrType(t) == stun.AttrXORMappedAddress {
 				err = a.GetFrom(m)
 			} else {
@@ -41,23 +77,23 @@ func getterResult(g, t int, key []byte, m *stun.Message) (obs []int, errText str
 			var port int
 			switch stun.AttrType(t) {
 			case stun.AttrAlternateServer:
-				var a stun.AlternateServer
+				a := stun.AlternateServer{IP: dirtyIP(), Port: 4711}
 				err = a.GetFrom(m)
 				ip, port = a.IP, a.Port
 			case stun.AttrResponseOrigin:
-				var a stun.ResponseOrigin
+				a := stun.ResponseOrigin{IP: dirtyIP(), Port: 4711}
 				err = a.GetFrom(m)
 				ip, port = a.IP, a.Port
 			case stun.AttrOtherAddress:
-				var a stun.OtherAddress
+				a := stun.OtherAddress{IP: dirtyIP(), Port: 4711}
 				err = a.GetFrom(m)
 				ip, port = a.IP, a.Port
 			case stun.AttrMappedAddress:
-				var a stun.MappedAddress
+				a := stun.MappedAddress{IP: dirtyIP(), Port: 4711}
 				err = a.GetFrom(m)
 				ip, port = a.IP, a.Port
 			default:
-				var a stun.MappedAddress
+				a := stun.MappedAddress{IP: dirtyIP(), Port: 4711}
 				err = a.GetFromAs(m, stun.AttrType(t))
 				ip, port = a.IP, a.Port
 			}
@@ -68,23 +104,23 @@ func getterResult(g, t int, key []byte, m *stun.Message) (obs []int, errText str
 			var v []byte
 			switch stun.AttrType(t) {
 			case stun.AttrUsername:
-				var a stun.Username
+				a := stun.Username(dirtyBytes())
 				err = a.GetFrom(m)
 				v = a
 			case stun.AttrRealm:
-				var a stun.Realm
+				a := stun.Realm(dirtyBytes())
 				err = a.GetFrom(m)
 				v = a
 			case stun.AttrNonce:
-				var a stun.Nonce
+				a := stun.Nonce(dirtyBytes())
 				err = a.GetFrom(m)
 				v = a
 			case stun.AttrSoftware:
-				var a stun.Software
+				a := stun.Software(dirtyBytes())
 				err = a.GetFrom(m)
 				v = a
 			default:
-				var a stun.TextAttribute
+				a := stun.TextAttribute(dirtyBytes())
 				err = a.GetFromAs(m, stun.AttrType(t))
 				v = a
 			}
@@ -92,13 +128,13 @@ func getterResult(g, t int, key []byte, m *stun.Message) (obs []int, errText str
 				val = append([]int{len(v)}, intsOf(v)...)
 			}
 		case 4:
-			var a stun.ErrorCodeAttribute
+			a := stun.ErrorCodeAttribute{Code: 999, Reason: dirtyBytes()}
 			err = a.GetFrom(m)
 			if err == nil {
 				val = append([]int{int(a.Code), len(a.Reason)}, intsOf(a.Reason)...)
 			}
 		case 5:
-			var a stun.UnknownAttributes
+			a := stun.UnknownAttributes{1, 2, 3, 4, 5, 6, 7, 8, 9}[:dirtyN%10]
 			err = a.GetFrom(m)
 			if err == nil {
 				val = []int{len(a)}
@@ -184,6 +220,7 @@ var getterTypes = map[int][]int{
 }
 
 func runC07(o *out, thorough bool, r *rng, _ []string) map[string]interface{} {
+	lookupCases(o, r, 600) // getters run through ForEach: a failing callback must not leave the message truncated
 	reps := 2
 	if thorough {
 		reps = 12
@@ -391,7 +428,7 @@ func goXorValue(ip []byte, port int, tid []byte) []byte {
 
 func runC06(o *out, thorough bool, r *rng, _ []string) map[string]interface{} {
 	ips := func() []byte {
-		switch r.intn(4) {
+		switch r.intn(6) {
 		case 0:
 			return r.bytes(4)
 		case 1:
@@ -401,9 +438,21 @@ func runC06(o *out, thorough bool, r *rng, _ []string) map[string]interface{} {
 			b[10], b[11] = 0xff, 0xff
 			copy(b[12:], r.bytes(4))
 			return b
-		default:
+		case 3:
 			b := r.bytes(16)
 			copy(b, make([]byte, r.intn(12)))
+			return b
+		default:
+			// almost IPv4-mapped: ::ffff:a.b.c.d with exactly one of the first twelve bytes off
+			b := make([]byte, 16)
+			b[10], b[11] = 0xff, 0xff
+			copy(b[12:], r.bytes(4))
+			i := r.intn(12)
+			if i >= 10 {
+				b[i] = byte(r.intn(255)) // not 0xff
+			} else {
+				b[i] = byte(1 + r.intn(255)) // not 0
+			}
 			return b
 		}
 	}
